@@ -114,4 +114,52 @@ theorem toldState_spec (total nsrv : Nat) (ro : List Nat) (held : SetMap) :
     simp [relOfServermap]
   · rw [c4, b1, a2]; exact hfold.1
 
+/-- a server that is not writable stays not writable until it is added again -/
+theorem not_writable_persists (p : Nat) (ops : List SelOp) (hops : SelOp.addPeer p ∉ ops) (s : SelState)
+    (h : p ∉ s.peers) : p ∉ (s.after ops).peers := by
+  induction ops generalizing s with
+  | nil => exact h
+  | cons op rest ih =>
+    simp only [List.mem_cons, not_or] at hops
+    simp only [SelState.after, List.foldl_cons]
+    apply ih hops.2
+    cases op with
+    | addPeer q =>
+      simp only [SelState.next, mem_sinsert, not_or]
+      refine ⟨fun e => hops.1 (by rw [e]), h⟩
+    | addPeerWithShare q sh => exact h
+    | markReadonly q =>
+      simp only [SelState.next, List.mem_filter, not_and]
+      intro hm; exact absurd hm h
+    | markBad q =>
+      simp only [SelState.next]
+      split
+      · simp only [List.mem_filter, not_and]; intro hm; exact absurd hm h
+      · split <;> exact h
+    | getPlacements => exact h
+
+/-- a read-only server stays read-only until it is written off as bad -/
+theorem readonly_persists (p : Nat) (ops : List SelOp) (hops : SelOp.markBad p ∉ ops) (s : SelState)
+    (h : p ∈ s.readonly) : p ∈ (s.after ops).readonly := by
+  induction ops generalizing s with
+  | nil => exact h
+  | cons op rest ih =>
+    simp only [List.mem_cons, not_or] at hops
+    simp only [SelState.after, List.foldl_cons]
+    apply ih hops.2
+    cases op with
+    | addPeer q => exact h
+    | addPeerWithShare q sh => exact h
+    | markReadonly q => simp only [SelState.next, mem_sinsert]; right; exact h
+    | markBad q =>
+      have hqp : q ≠ p := fun e => hops.1 (by rw [e])
+      simp only [SelState.next]
+      split
+      · exact h
+      · split
+        · simp only [List.mem_filter, bne_iff_ne, ne_eq]
+          exact ⟨h, fun e => hqp e.symm⟩
+        · exact h
+    | getPlacements => exact h
+
 end Tahoe.Happiness
